@@ -166,6 +166,11 @@ fn selection_campaign(report: &mut Report, n: usize) {
         };
         opts.derive_mode = mode.starts_with("derive");
         opts.operation_name = name.clone();
+        // a library caller in derive mode need not hand over the struct identifier
+        opts.omit_struct_ident = opts.derive_mode && st.chance(30);
+        if opts.omit_struct_ident {
+            report.feature("derive_mode_without_struct_ident");
+        }
         // both entry points: the document as a string, and as a file read by the library
         let qsrc = if st.chance(50) { QuerySrc::Path(scratch.file(&b.case.document, "graphql")) } else { QuerySrc::Text(b.case.document.clone()) };
         let via_path = matches!(qsrc, QuerySrc::Path(_));
